@@ -50,7 +50,8 @@ class C12(Check):
             "division, bool sums, mixed int/float case expressions, mean of ints, pow; summarize; join padding; union). "
             "Oracle: for every output column the static `tbl[col].dtype()` vs the exported Polars dtype - equal to "
             "dtype.to_polars() for concrete types on Polars, same family for the abstract Int/Float, Null only for an "
-            "all-null column; on SQLite up to the numeric family (any integer width ~ Int64, Float32/Decimal ~ Float; "
+            "all-null column; on SQLite the same family up to the width (any integer width ~ Int64, Float32 ~ Float64; a Decimal or "
+            "integer column for a static Float is a failure; "
             "booleans may arrive as 0/1 integers) and skipped for empty frames; Table(exported) and collect() reproduce the "
             "exported dtypes. non-trivial = an expression of depth >=2 containing an overload with a non-trivial "
             "return-type rule (division, bool sum, case with mixed int/float, mean of ints, pow, literal widening)")
@@ -133,8 +134,10 @@ class C12(Check):
                 else:
                     if df.height == 0:
                         continue
-                    # SQLite is dynamically typed: "numeric family" covers int <-> float as well
-                    ok = (sfam == gfam or (sfam == "bool" and gfam == "int") or {sfam, gfam} == {"int", "float"}
+                    # families must agree on SQLite, too (a static Float exported as Int64 or Decimal is a failure)
+                    if got.is_decimal():
+                        gfam = "decimal"
+                    ok = (sfam == gfam or (sfam == "bool" and gfam == "int")
                           or (sfam in ("date", "datetime") and gfam == "str" and all_null))
                     if not ok:
                         out.fail("dtype", f"sqlite:{sfam}->{gfam}", f"sqlite: column {name}: static {static} but exported {got}")
